@@ -1798,6 +1798,31 @@ class Interp:
         return self.e_ListComp(n, env)
 
     def e_SetComp(self, n, env):
+        # {elt for x in <concrete iterable> if <symbolic condition>}: membership by if-conversion, no forking
+        if len(n.generators) == 1 and not n.generators[0].is_async and n.generators[0].ifs:
+            g = n.generators[0]
+            sub = Env({}, env, env.func, env.globals_, env.owner, env.cells, env.qualname)
+            sub.self_arg = env.self_arg
+            items = self.iterate(self.ev(g.iter, sub))
+            res = SymSet()
+            symbolic = False
+            for x in items:
+                self.assign(g.target, x, sub)
+                cond = True
+                for c in g.ifs:
+                    t = self.truth(self.ev(c, sub))
+                    cond = t if cond is True else And(cond, t)
+                if cond is False:
+                    continue
+                elt = self.ev(n.elt, sub)
+                if is_sym(elt) or contains_sym([elt]):
+                    raise Unsupported("set comprehension with symbolic elements")
+                if not isinstance(cond, bool):
+                    symbolic = True
+                res.add_if(cond, elt)
+            if symbolic:
+                return res
+            return self.fresh({e for e, c in res.mem.items() if c is True})
         out = []
         self._comp(n, env, lambda e: out.append(self.ev(n.elt, e)))
         if contains_sym(out):
